@@ -54,7 +54,7 @@ class CallMixin(ExprMixin):
     # ------------------------------------------------------------------ call expression
     def eval_call(self, e: ast.Call, st: State, ctx: Ctx):
         # spec builtins needing unevaluated arguments
-        if isinstance(e.func, ast.Name) and ctx.spec and e.func.id in ("old", "pre", "forall", "exists", "implies", "bound"):
+        if isinstance(e.func, ast.Name) and ctx.spec and e.func.id in ("old", "pre", "forall", "exists", "implies", "bound", "arg"):
             return [(st, self.spec_special(e, st, ctx))]
         if isinstance(e.func, ast.Name) and e.func.id == "super" and not e.args:
             self_v = self.lookup_name(self.first_param_name(ctx.func), st, ctx)
@@ -592,7 +592,7 @@ class CallMixin(ExprMixin):
             return View(b, smt.fresh("ret_lo", smt.I), smt.fresh("ret_hi", smt.I))
         return self.make_symbolic(st, t, "ret")
 
-    def apply_call_hints(self, st: State, ctx: Ctx, fi: FuncInfo, pre_state: State, res: Any, line: int) -> None:
+    def apply_call_hints(self, st: State, ctx: Ctx, fi: FuncInfo, pre_state: State, res: Any, line: int, callee_frame: Ref | None = None) -> None:
         """Proof hints of the *caller's* contract: clauses proved, then assumed, right after a call to `fi` returns.
         In a hint, `old(...)` is the caller's entry state and `pre(...)` the state just before the call."""
         # hints belong to the function under verification; they also apply to calls made from code inlined into it
@@ -606,6 +606,7 @@ class CallMixin(ExprMixin):
         hctx = top.sub(spec=True)
         hctx.specials["result"] = res
         hctx.specials["$pre"] = (pre_state, top.frame)
+        hctx.specials["$callee"] = (pre_state, callee_frame)  # arg("name"): the value the callee received for that parameter
         for cl in _clauses(hints):
             g = self.eval_clause(cl, st, hctx)
             self.oblige(st, g, "hint", line, f"after-{fi.name}:{cl.name}", cl.tags)
@@ -666,7 +667,7 @@ class CallMixin(ExprMixin):
                         continue
                     results.append((s3, r))
             else:
-                self.apply_call_hints(s2, ctx, fi, old, (r, res_rest), line)
+                self.apply_call_hints(s2, ctx, fi, old, (r, res_rest), line, frame)
                 results.append((s2, (r, res_rest)))
         return results
 
@@ -768,7 +769,7 @@ class CallMixin(ExprMixin):
                 for cl in c.ensures:
                     sN.assume(self.eval_clause(cl, sN, nctx))
                 if self.feasible(sN):
-                    self.apply_call_hints(sN, ctx, fi, old, res, line)
+                    self.apply_call_hints(sN, ctx, fi, old, res, line, frame)
                     results.append((sN, res))
         if not results and live_before and self.recording:
             raise EngineError(f"{ctx.func.key()}:{line}: applying the contract of {c.key} leaves no feasible outcome "
